@@ -30,7 +30,7 @@ def coq_op(o):
     bb = o.get("b", 0)
     if t == "put":
         return "(OPut %d%%nat %s %s %s)" % (i, nat_list(o.get("ord")), nat_list(o.get("ordp")), nat_list(o.get("ordb")))
-    if t == "get":
+    if t in ("get", "getb", "gets"):   # Get / GetBytes / GetStream: one shard scan (StorageEngine.get)
         return "(OGet %d%%nat %s)" % (i, nat_list(o.get("ord")))
     if t == "head":
         return "(OHead %d%%nat %s)" % (i, nat_list(o.get("ord")))
@@ -67,6 +67,21 @@ def hists_def(hs, op_fn=coq_op, name="cases"):
 def decode(xs):
     """[hist*1000 + op] -> [(hist, op)]"""
     return [(x // 1000, x % 1000) for x in xs]
+
+
+# ---- C20 histories with data loss (Engine/Check20.v) ----
+PRELUDE20 = ("From NV Require Import Engine.Model Engine.Spec Engine.Check Engine.Check20.\n"
+             "From Coq Require Import List NArith. Import ListNotations.\nLocal Open Scope N_scope.\n")
+
+
+def coq_op20(o):
+    if o["op"] == "lose":
+        return "(OLose %d%%nat %d%%nat)" % (o["i"], o["a"])
+    return "(E20 %s)" % coq_op(o)
+
+
+def hists20_def(hs, name="cases"):
+    return "Definition %s : list hist20 := [\n%s\n].\n" % (name, ";\n".join(coq_hist(h, coq_op20) for h in hs))
 
 
 # ---- C08 histories (Engine/Check8.v) ----
